@@ -68,7 +68,7 @@ func callerLookup(m *rhh.HashMap, key []byte) (interface{}, bool) {
 
 func TestPropRHH(t *testing.T) {
 	excludeEmpty := ev.KnownOpen("C36", knownRHHEmptyKey)
-	rec.Check(t, 20000, 400000, func(t *rapid.T) {
+	rec.Check(t, 40000, 400000, func(t *rapid.T) {
 		capacity := int64(rapid.IntRange(0, 64).Draw(t, "capacity"))
 		loadFactor := rapid.SampledFrom([]int{90, 80, 50, 25}).Draw(t, "loadFactor")
 		m := rhh.NewHashMap(rhh.Options{Capacity: capacity, LoadFactor: loadFactor, MetricsEnabled: rapid.Bool().Draw(t, "metrics")})
@@ -213,7 +213,7 @@ func TestPropRHH(t *testing.T) {
 		case grewByPut && steps >= 10:
 			rec.Class("rhh:growth-reached")
 			rec.NonTrivial(fmt.Sprintf("rhh|%d|%d|%s", capacity, loadFactor, strings.Join(hist, " ")))
-			if rec.WantSample() && len(hist) < 40 {
+			if len(hist) < 40 && wantSample("rhh") {
 				rec.Sample(map[string]any{"structure": "rhh.HashMap", "capacity": capacity, "loadFactor": loadFactor, "history(put(keyIndex,value))": strings.Join(hist, " ")})
 			}
 		default:
